@@ -234,6 +234,7 @@ def run(chk, facts_dir, tier):
     # R5.4 (reopen clause) is shared with C05
     _marker_width(chk, prog)
     _header_fits(chk, prog)
+    _buffer_slice_covered(chk, prog)
     return {}
 
 
@@ -387,3 +388,52 @@ def _header_fits(chk, prog):
                 chk.fail("R17.6", path, "header-split-unguarded", "the payload is split at the header size H without a preceding `payload_len >= H`: a single bit flip in the length word "
                          "(e.g. 1 -> 0 for an empty record) makes the reader panic instead of reporting corruption", b, t["line"])
     chk.floor("R17.6", n, 4)
+
+
+def _buffer_slice_covered(chk, prog):
+    """R17.7: bytes taken out of a read buffer were read into it by this call"""
+    chk.rule("R17.7", "BUFFER SLICE COVERED: in Reader::read_record a slice of the optimistic buffer whose end depends on the decoded payload length is taken only on the edge of a "
+                      "comparison that bounds that end by the flushed offset loaded in this call or by the number of bytes the (clamped) optimistic read actually fetched; otherwise "
+                      "the tail of a truncated record is supplied by whatever the buffer held before (zeros, or an earlier read) and can pass the checksum")
+    path = "seglog::read::Reader::<H>::read_record"
+    b = prog.body(path)
+    ev = Ev(prog, b)
+
+    def dep_len(t):
+        return any(isinstance(x, tuple) and x and x[0] == "bin" and x[1] == "BitAnd" for x in walk(t))
+
+    def dep_flushed(t):
+        return any(isinstance(x, tuple) and x and ((x[0] == "call" and x[1].endswith("FlushedOffset::load")) or (x[0] == "param" and x[2] == "flushed_offset")) for x in walk(t))
+
+    guards = []
+    for c in comparisons(prog, b, ev):
+        a, d, op = c["a"], c["b"], c["op"]
+        if dep_len(a) and dep_flushed(d) and not dep_len(d):
+            pass
+        elif dep_len(d) and dep_flushed(a) and not dep_len(a):
+            op = SWAP[op]
+        else:
+            continue
+        sw = switch_on(b, c["sw_block"], c["lhs"]["l"])
+        if not sw:
+            continue
+        edge = sw[0] if op in ("Le", "Lt") else (sw[1] if op in ("Gt", "Ge") else None)     # len-side <= bound holds on this edge
+        if edge is not None:
+            guards.append((c["sw_block"], edge, c["line"]))
+    n = 0
+    for bi, t in b.calls():
+        if not (b.callee_decl(t) or "").endswith("Index::index") or len(t["args"]) != 2:
+            continue
+        base = ev.operand(t["args"][0], (bi, "T"))
+        rng = strip(ev.operand(t["args"][1], (bi, "T")))
+        if not any(isinstance(x, tuple) and x and x[0] == "field" and x[2] == "optimistic_buf" for x in walk(base)):
+            continue
+        if rng[0] != "agg" or not any(dep_len(x) for x in rng[2]):
+            continue
+        n += 1
+        if any(edge_dominates(b, gb, ge, bi) for gb, ge, _ in guards):
+            chk.ok("R17.7", "optimistic_buf[..payload end] taken under a bound by the flushed offset / bytes read", b.where(t["line"]))
+        else:
+            chk.fail("R17.7", path, "buffer-slice-unbounded", "the payload is cut out of the optimistic buffer without a comparison of its end with the flushed offset or with the number of "
+                     "bytes actually read: a record truncated inside its payload is completed from stale buffer contents and can be returned as valid", b, t["line"])
+    chk.floor("R17.7", n, 1)
